@@ -66,11 +66,23 @@ Theorem C08_desc_is_rev_asc : forall db q,
 Proof. exact desc_is_rev_asc_lemma. Qed.
 Print Assumptions C08_desc_is_rev_asc.
 
+(* merging the readers' sorted streams = sorting all rows: the k-way merge is fully determined by its inputs' rows *)
+Theorem C08_merge_k_eq_sort_rows : forall ls, Forall (Sorted row_le) ls -> merge_k ls = sort_rows (concat ls).
+Proof. exact merge_k_eq_sort_rows. Qed.
+Print Assumptions C08_merge_k_eq_sort_rows.
+
+(* L2 = L1 for plain selections (split invariance): for every partition of the member series over parallel readers,
+   in any order, sorting per reader and merging gives L1's plain_group *)
+Theorem C08_plain_pipeline_refines_eval : forall q cols (parts : list (list series)) ms,
+  Permutation (concat parts) ms -> merge_k (map (plain_group q cols) parts) = plain_group q cols ms.
+Proof. exact plain_pipeline_refines_eval_lemma. Qed.
+Print Assumptions C08_plain_pipeline_refines_eval.
+
 (* L2 = L1, PARTIAL. Proved: (i) the limit stage of the pipeline computes L1's limit_rows for every chunking;
    (ii) L1's fill over a concatenation of chunks is the fill of the chunks with the previous values carried.
-   Missing: the aggregation stage (agg_spec over the (group,bucket)-keyed time-ordered scan = L1's per-bucket
-   agg_cell over filtered points), the equality merge_k = sort_rows (uniqueness of sorted permutations), and the
-   composition of the stages into one pipeline theorem. *)
+   Plain selections are complete (C08_plain_pipeline_refines_eval + the limit stage below).
+   Missing for aggregate queries: the aggregation stage (agg_spec over the (group,bucket)-keyed time-ordered scan =
+   L1's per-bucket agg_cell over filtered points), the fill machine = L1's bucket enumeration, and their composition. *)
 Theorem C08_pipeline_refines_eval_partial :
   (forall q sizes rows, (0 <? q_limit q)%Z = true ->
      limit_rows q rows = snd (run_chunks (limit_step (Z.to_nat (q_offset q)) (Z.to_nat (q_limit q))) 0%nat (cut sizes rows)))
@@ -84,6 +96,19 @@ Proof.
   - exact fill_rows_app.
 Qed.
 Print Assumptions C08_pipeline_refines_eval_partial.
+
+(* operator level (one group): the fill operator - machine over the chunks, then the tail - gives the same rows for
+   every chunking of the group's bucket rows; this is the operator the real FillTransform is compared with *)
+Theorem C08_fill_operator_chunking_invariant : forall i first last m aggs chunks,
+  fill_group_chunks i first last m aggs chunks = fill_group_chunks i first last m aggs [concat chunks].
+Proof. exact fill_group_chunks_invariant_lemma. Qed.
+Print Assumptions C08_fill_operator_chunking_invariant.
+
+(* split path, repaired sub-chunk windows of a descending group: every window of the group lies in some sub-chunk *)
+Theorem C08_desc_subchunks_repaired_cover : forall size cs k,
+  (0 < cs)%nat -> (k < size)%nat -> covered in_subchunk_repaired size cs k = true.
+Proof. exact subchunks_repaired_cover. Qed.
+Print Assumptions C08_desc_subchunks_repaired_cover.
 
 (* non-vacuity: a concrete data base and queries *)
 Example C08_example :
